@@ -49,6 +49,7 @@ func isBoundaryYear(y int) bool {
 func c01Run(w *W, c Case) {
 	y := c.A[0]
 	w.Class(fmt.Sprintf("century%02d", y/100))
+	historyTouch(w, y)
 	by := isBoundaryYear(y)
 	digestEvery := 5
 	if !w.Quick && !by {
